@@ -414,7 +414,7 @@ def run_batch(spec):
                     closer = pt[0].startswith("wdv-call-")
                     for partner in (["touch", "rmroot"] if closer else ["stop", "unschedule", "rmroot"]):
                         nth = r.choice([1, 1, 2])
-                        ev = r.random() < 0.5
+                        ev = r.choice([False, True, "mkdirs"])
                         out = apireal.hold_case(ins, led, "inotify", pt, nth, partner, ev)
                         b.case()
                         b.count("api_hold_cases_reached" if out["reached"] else "api_hold_cases_not_reached")
